@@ -115,7 +115,9 @@ def _one(sc, r):
     if meta["dispersive"]:
         dtn = 0.99 * 50e-9 / (np.sqrt(3.0) * 299792458.0)
         ilo, ihi = scenes.interior_box(scene)
-        poles = [{"kind": "lorentz", "w0": 0.3 / dtn, "gamma": 0.05 / dtn, "deps": 1.0}, {"kind": "drude", "wp": 0.1 / dtn, "gamma": 0.02 / dtn}]
+        # resonance well above the source band (omega*dt <= 0.45): with the resonance inside the band Re(eps) < 0 at
+        # the carrier, and a plane source whose plane cuts the box then injects NaN (its impedance is not real)
+        poles = [{"kind": "lorentz", "w0": 0.9 / dtn, "gamma": 0.05 / dtn, "deps": 1.0}, {"kind": "drude", "wp": 0.1 / dtn, "gamma": 0.02 / dtn}]
         scene["materials"].append(
             {"lo": [max(l, h - 3) for l, h in zip(ilo, ihi)], "hi": list(ihi), "mat": {"eps": 2.0, "dispersion": {"poles": poles[: int(rng.integers(1, 3))]}}, "order": 5}
         )
@@ -134,6 +136,11 @@ def _one(sc, r):
     run_full = jax.jit(lambda a: fdtdx.run_fdtd(arrays=a, objects=objects, config=config, key=key, show_progress=False))
     t_ref, a_ref = run_full(arrays0)
     ref = _tree_np(a_ref)
+    if not all(np.all(np.isfinite(v)) for v in ref.values()):
+        # the single uninterrupted run itself is not finite: there is no state for a split run to reproduce
+        r.count("reference_run_not_finite_scenes_skipped")
+        r.branch("reference_run_not_finite")
+        return
     mats0 = _materials_np(arrays0)
     nontriv = float(np.abs(ref["E"]).max()) > 0
     scaleE, scaleH = float(np.abs(ref["E"]).max()), float(np.abs(ref["H"]).max())
